@@ -11,6 +11,7 @@ Arguments N.eqb : simpl never.
 Arguments N.leb : simpl never.
 Arguments N.ltb : simpl never.
 Arguments wrap64 : simpl never.
+Arguments remove_nat : simpl never.
 
 Ltac inv H := inversion H; subst; clear H.
 
@@ -25,3 +26,6 @@ Ltac case_match_in H :=
   | context [match ?e with _ => _ end] => destruct e eqn:?
   | context [if ?e then _ else _] => destruct e eqn:?
   end.
+
+(* oid / aid are nat: make lia see through the abbreviations *)
+Ltac nlia := unfold oid, aid in *; lia.
